@@ -63,14 +63,14 @@ theorem dopt_dopt (d : Dir) (rd wr : Field) (o1 o2 : Option Strat) :
 /-! ## coherence: a field with a target is in the write-set of its partner -/
 
 def Coh (f1 f2 : Field) (st : St) : Prop :=
-  (hasToTarget st f1 = true → st.wD.contains f2.name = true) ∧
-  (hasFromTarget st f2 = true → st.wS.contains f1.name = true)
+  (hasToTarget st f1 = true → blocked st.toD f2 = true) ∧
+  (hasFromTarget st f2 = true → blocked st.fromD f1 = true)
 
 theorem coh_claimTo {f1 f2 : Field} {st : St} (h : Coh f1 f2 st) (s : Strat) : Coh f1 f2 (claimTo st f1 f2 s) := by
   unfold claimTo
   split
   · exact h
-  · refine ⟨fun _ => by simp, ?_⟩
+  · refine ⟨fun _ => by simp [blocked, St.toD], ?_⟩
     intro ht
     exact h.2 (by simpa [hasFromTarget] using ht)
 
@@ -78,7 +78,7 @@ theorem coh_claimFrom {f1 f2 : Field} {st : St} (h : Coh f1 f2 st) (s : Strat) :
   unfold claimFrom
   split
   · exact h
-  · refine ⟨?_, fun _ => by simp⟩
+  · refine ⟨?_, fun _ => by simp [blocked, St.fromD]⟩
     intro ht
     exact h.1 (by simpa [hasToTarget] using ht)
 
@@ -93,6 +93,11 @@ theorem dopt_blocked (d : Dir) (rd wr : Field) (o : Option Strat) (h : d.w.conta
   cases o with
   | none => rfl
   | some s => exact dclaim_blocked d rd wr s h
+
+theorem dopt_blocked' (d : Dir) (rd wr : Field) (o : Option Strat) (h : blocked d wr = true) : dopt d (rd, wr, o) = d := by
+  cases o with
+  | none => rfl
+  | some s => exact dclaim_pos h rd s
 
 theorem toD_funcStep (f1 f2 : Field) (kf : Nat × Fn) (st : St) :
     (funcStep f1 f2 kf st).toD =
@@ -136,10 +141,8 @@ theorem toD_funcLoop (f1 f2 : Field) (l : List (Nat × Fn)) (st : St) (h : Coh f
       · rw [if_neg hm]
         have hw := hc.1 hb.1
         have e := toD_funcStep_ne f1 f2 kf st hm
-        have : st.toD.w.contains f2.name = true := by
-          have : (funcStep f1 f2 kf st).toD.w = st.toD.w := congrArg Dir.w e
-          exact this ▸ hw
-        rw [e, dopt_blocked _ _ _ _ this]
+        rw [e] at hw
+        rw [e, dopt_blocked' _ _ _ _ hw]
     · rw [ih _ hc]
       by_cases hm : (kf.2.param == f1.ty && kf.2.result == f2.ty) = true
       · rw [toD_funcStep, if_pos hm, if_pos hm, dopt_dopt]; rfl
@@ -161,10 +164,8 @@ theorem fromD_funcLoop (f1 f2 : Field) (l : List (Nat × Fn)) (st : St) (h : Coh
       · rw [if_neg hm]
         have hw := hc.2 hb.2
         have e := fromD_funcStep_ne f1 f2 kf st hm
-        have : st.fromD.w.contains f1.name = true := by
-          have : (funcStep f1 f2 kf st).fromD.w = st.fromD.w := congrArg Dir.w e
-          exact this ▸ hw
-        rw [e, dopt_blocked _ _ _ _ this]
+        rw [e] at hw
+        rw [e, dopt_blocked' _ _ _ _ hw]
     · rw [ih _ hc]
       by_cases hm : (kf.2.param == f2.ty && kf.2.result == f1.ty) = true
       · rw [fromD_funcStep, if_pos hm, if_pos hm, dopt_dopt]; rfl
@@ -284,30 +285,53 @@ variable {conv : List (Ty × Ty)} {fns : List (Nat × Fn)} {ps : List (Field × 
 def Unique (ps : List (Field × Field)) : Prop :=
   (ps.map (·.1.name)).Nodup ∧ (ps.map (·.2.name)).Nodup
 
-theorem coh_of_inv {st : St} (h : Inv conv fns ps w0D w0S st) (hu : Unique ps) {p : Field × Field} (hp : p ∈ ps) :
+/-- weaker than `Unique`, and what accessor mode still has: among the partners a field could CLAIM
+    (written side not a getter) there is at most one -/
+def UniqueClaimable (ps : List (Field × Field)) : Prop :=
+  (∀ p ∈ ps, ∀ q ∈ ps, p.1 = q.1 → p.2.isGet = false → q.2.isGet = false → p.2 = q.2) ∧
+  (∀ p ∈ ps, ∀ q ∈ ps, p.2 = q.2 → p.1.isGet = false → q.1.isGet = false → p.1 = q.1)
+
+theorem claimable_of_unique (hu : Unique ps) : UniqueClaimable ps := by
+  constructor
+  · intro p hp q hq e _ _
+    have : p = q := inj_of_map_nodup (fun x : Field × Field => x.1.name) ps hu.1 hp hq (by simp [e])
+    rw [this]
+  · intro p hp q hq e _ _
+    have : p = q := inj_of_map_nodup (fun x : Field × Field => x.2.name) ps hu.2 hp hq (by simp [e])
+    rw [this]
+
+theorem coh_of_inv {st : St} (h : Inv conv fns ps w0D w0S st) (hu : UniqueClaimable ps) {p : Field × Field} (hp : p ∈ ps) :
     Coh p.1 p.2 st := by
   constructor
   · intro ht
     simp only [hasToTarget, List.any_eq_true, beq_iff_eq] at ht
     obtain ⟨c, hc, hrd⟩ := ht
     have hpair := (h.toPair c hc).1
-    have : (c.rd, c.wr) = p := inj_of_map_nodup (fun x : Field × Field => x.1.name) ps hu.1 hpair hp (by simp [hrd])
-    have hw : c.wr = p.2 := by rw [← this]
-    simpa [hw] using (h.toIn c hc).1
+    have hin := h.toIn c hc
+    cases hg : p.2.isGet with
+    | true => simp [blocked, hg]
+    | false =>
+      have hw : c.wr = p.2 := hu.1 (c.rd, c.wr) hpair p hp hrd hin.2.2 hg
+      have : p.2.name ∈ st.wD := hw ▸ hin.1
+      simp [blocked, St.toD, this]
   · intro ht
     simp only [hasFromTarget, List.any_eq_true, beq_iff_eq] at ht
     obtain ⟨c, hc, hrd⟩ := ht
     have hpair := (h.fromPair c hc).1
-    have : (c.wr, c.rd) = p := inj_of_map_nodup (fun x : Field × Field => x.2.name) ps hu.2 hpair hp (by simp [hrd])
-    have hw : c.wr = p.1 := by rw [← this]
-    simpa [hw] using (h.fromIn c hc).1
+    have hin := h.fromIn c hc
+    cases hg : p.1.isGet with
+    | true => simp [blocked, hg]
+    | false =>
+      have hw : c.wr = p.1 := hu.2 (c.wr, c.rd) hpair p hp hrd hin.2.2 hg
+      have : p.1.name ∈ st.wS := hw ▸ hin.1
+      simp [blocked, St.fromD, this]
 
 def misToA (fl : List Fn) (p : Field × Field) : Attempt := (p.1, p.2, misStrat (indexed fl) .src .dest p.1.ty p.2.ty)
 def misFromA (fl : List Fn) (p : Field × Field) : Attempt := (p.2, p.1, misStrat (indexed fl) .dest .src p.2.ty p.1.ty)
 def matToA (conv : List (Ty × Ty)) (p : Field × Field) : Attempt := (p.1, p.2, matStrat conv p.1.ty p.2.ty)
 def matFromA (conv : List (Ty × Ty)) (p : Field × Field) : Attempt := (p.2, p.1, matStrat conv p.2.ty p.1.ty)
 
-theorem fold_mismatch (fl : List Fn) (hu : Unique ps) (l : List (Field × Field)) (hl : ∀ p ∈ l, p ∈ ps) {st : St}
+theorem fold_mismatch (fl : List Fn) (hu : UniqueClaimable ps) (l : List (Field × Field)) (hl : ∀ p ∈ l, p ∈ ps) {st : St}
     (h : Inv conv (indexed fl) ps w0D w0S st) :
     (l.foldl (mismatchStep fl) st).toD = (l.map (misToA fl)).foldl dopt st.toD ∧
     (l.foldl (mismatchStep fl) st).fromD = (l.map (misFromA fl)).foldl dopt st.fromD := by
@@ -528,7 +552,7 @@ theorem toC_char (conv : List (Ty × Ty)) (fl : List Fn) (ps : List (Field × Fi
       ((ps.map (matToA conv)).foldl dopt ((ps.map (misToA fl)).foldl dopt ⟨w0D, []⟩)).cs := by
     unfold planFields
     have := (fold_match (conv := conv) ps (ps.foldl (mismatchStep fl) { wD := w0D, wS := w0S })).1
-    rw [(fold_mismatch fl hu ps (fun _ h => h) h0).1] at this
+    rw [(fold_mismatch fl (claimable_of_unique hu) ps (fun _ h => h) h0).1] at this
     exact congrArg Dir.cs this
   rw [e]
   exact two_phase ps (·.1) (·.2) _ _ hu.2 w0D c
@@ -544,7 +568,7 @@ theorem fromC_char (conv : List (Ty × Ty)) (fl : List Fn) (ps : List (Field × 
       ((ps.map (matFromA conv)).foldl dopt ((ps.map (misFromA fl)).foldl dopt ⟨w0S, []⟩)).cs := by
     unfold planFields
     have := (fold_match (conv := conv) ps (ps.foldl (mismatchStep fl) { wD := w0D, wS := w0S })).2
-    rw [(fold_mismatch fl hu ps (fun _ h => h) h0).2] at this
+    rw [(fold_mismatch fl (claimable_of_unique hu) ps (fun _ h => h) h0).2] at this
     exact congrArg Dir.cs this
   rw [e]
   exact two_phase ps (·.2) (·.1) _ _ hu.1 w0S c
@@ -588,7 +612,8 @@ theorem plan_inv (inp : Input) :
   ⟨_, _, planFields_inv inp.fns _ _⟩
 
 theorem plan_plain_st (inp : Input) (hs : inp.srcNew = false) (hd : inp.destNew = false) :
-    (plan inp).st = planFields inp.conv inp.fns (pairs inp.nm (plan inp).srcFields (plan inp).destFields) {} := by
+    (plan inp).st = planFields inp.conv inp.fns (pairs inp.nm (plan inp).srcFields (plan inp).destFields)
+      { wD := inp.manualW, wS := inp.manualR } := by
   simp [plan, hs, hd, sideParams, ctorMatch]
 
 /-- the recursive-mapping test of the generator (named types of the two packages) agrees with the
@@ -756,5 +781,203 @@ theorem sideFields_plain_flags (t : Tree) : ∀ f ∈ sideFields t false, f.isGe
   intro f hf
   simp only [sideFields, Bool.false_eq_true, ↓reduceIte, List.mem_filter] at hf
   exact foldl_aor_flags _ [] (walkTop_flags t) (by simp) f hf.1
+
+
+/-! ## existence: an applicable pair leaves its written field claimed (no uniqueness of written names needed) -/
+
+theorem dopt_named (d : Dir) (a : Attempt) (w0 : List String)
+    (h : ∀ n ∈ d.w, n ∈ w0 ∨ ∃ c ∈ d.cs, c.wr.name = n) :
+    ∀ n ∈ (dopt d a).w, n ∈ w0 ∨ ∃ c ∈ (dopt d a).cs, c.wr.name = n := by
+  obtain ⟨rd, wr, o⟩ := a
+  cases o with
+  | none => exact h
+  | some s =>
+    simp only [dopt]
+    by_cases hb : blocked d wr = true
+    · rw [dclaim_pos hb]; exact h
+    · rw [dclaim_neg hb]
+      intro n hn
+      rcases List.mem_cons.mp hn with rfl | hn'
+      · exact Or.inr ⟨⟨rd, wr, s⟩, by simp, rfl⟩
+      · rcases h n hn' with h1 | ⟨c, hc, e⟩
+        · exact Or.inl h1
+        · exact Or.inr ⟨c, List.mem_append_left _ hc, e⟩
+
+theorem foldl_dopt_named (A : List Attempt) (d : Dir) (w0 : List String)
+    (h : ∀ n ∈ d.w, n ∈ w0 ∨ ∃ c ∈ d.cs, c.wr.name = n) :
+    ∀ n ∈ (A.foldl dopt d).w, n ∈ w0 ∨ ∃ c ∈ (A.foldl dopt d).cs, c.wr.name = n := by
+  induction A generalizing d with
+  | nil => exact h
+  | cons a A ih => exact ih _ (dopt_named d a w0 h)
+
+theorem planFields_toD (conv : List (Ty × Ty)) (fl : List Fn) (ps : List (Field × Field)) (hu : UniqueClaimable ps)
+    (w0D w0S : List String) :
+    (planFields conv fl ps { wD := w0D, wS := w0S }).toD =
+      ((ps.map (misToA fl)) ++ (ps.map (matToA conv))).foldl dopt ⟨w0D, []⟩ ∧
+    (planFields conv fl ps { wD := w0D, wS := w0S }).fromD =
+      ((ps.map (misFromA fl)) ++ (ps.map (matFromA conv))).foldl dopt ⟨w0S, []⟩ := by
+  have h0 := inv_init conv (indexed fl) ps w0D w0S
+  unfold planFields
+  have hm := fold_match (conv := conv) ps (ps.foldl (mismatchStep fl) { wD := w0D, wS := w0S })
+  have hmis := fold_mismatch fl hu ps (fun _ h => h) h0
+  rw [List.foldl_append, List.foldl_append]
+  rw [hm.1, hm.2, hmis.1, hmis.2]
+  exact ⟨rfl, rfl⟩
+
+theorem orElse_isSome_cases {α} (a b : Option α) (h : (a.orElse (fun _ => b)).isSome = true) :
+    a.isSome = true ∨ b.isSome = true := by
+  cases a with
+  | none => right; simpa using h
+  | some x => left; rfl
+
+/-- ToX: a name-matched pair with an applicable strategy whose written field is not a getter and was
+    not taken by the constructor ends up claimed — by this pair or an earlier one -/
+theorem claim_exists_to (conv : List (Ty × Ty)) (fl : List Fn) (ps : List (Field × Field)) (hu : UniqueClaimable ps)
+    (w0D w0S : List String) (p : Field × Field) (hp : p ∈ ps) (hg : p.2.isGet = false) (hw : p.2.name ∉ w0D)
+    (hs : (pairStrat conv (indexed fl) .src .dest p.1.ty p.2.ty).isSome = true) :
+    ∃ c ∈ (planFields conv fl ps { wD := w0D, wS := w0S }).toC, c.wr.name = p.2.name := by
+  have e := (planFields_toD conv fl ps hu w0D w0S).1
+  have hname : p.2.name ∈ (planFields conv fl ps { wD := w0D, wS := w0S }).toD.w := by
+    rw [e, foldl_dopt_w]
+    right
+    rcases orElse_isSome_cases _ _ hs with h1 | h1
+    · exact ⟨misToA fl p, List.mem_append_left _ (List.mem_map_of_mem hp), by
+        simp only [misToA, effClaim, hg, Bool.false_eq_true, ↓reduceIte, Option.isSome_map]; exact h1, rfl⟩
+    · exact ⟨matToA conv p, List.mem_append_right _ (List.mem_map_of_mem hp), by
+        simp only [matToA, effClaim, hg, Bool.false_eq_true, ↓reduceIte, Option.isSome_map]; exact h1, rfl⟩
+  rw [e] at hname
+  rcases foldl_dopt_named _ ⟨w0D, []⟩ w0D (fun n hn => Or.inl hn) _ hname with h1 | ⟨c, hc, hn⟩
+  · exact absurd h1 hw
+  · refine ⟨c, ?_, hn⟩
+    have : (planFields conv fl ps { wD := w0D, wS := w0S }).toC = (planFields conv fl ps { wD := w0D, wS := w0S }).toD.cs := rfl
+    rw [this, e]; exact hc
+
+/-- FromX: the mirror image -/
+theorem claim_exists_from (conv : List (Ty × Ty)) (fl : List Fn) (ps : List (Field × Field)) (hu : UniqueClaimable ps)
+    (w0D w0S : List String) (p : Field × Field) (hp : p ∈ ps) (hg : p.1.isGet = false) (hw : p.1.name ∉ w0S)
+    (hs : (pairStrat conv (indexed fl) .dest .src p.2.ty p.1.ty).isSome = true) :
+    ∃ c ∈ (planFields conv fl ps { wD := w0D, wS := w0S }).fromC, c.wr.name = p.1.name := by
+  have e := (planFields_toD conv fl ps hu w0D w0S).2
+  have hname : p.1.name ∈ (planFields conv fl ps { wD := w0D, wS := w0S }).fromD.w := by
+    rw [e, foldl_dopt_w]
+    right
+    rcases orElse_isSome_cases _ _ hs with h1 | h1
+    · exact ⟨misFromA fl p, List.mem_append_left _ (List.mem_map_of_mem hp), by
+        simp only [misFromA, effClaim, hg, Bool.false_eq_true, ↓reduceIte, Option.isSome_map]; exact h1, rfl⟩
+    · exact ⟨matFromA conv p, List.mem_append_right _ (List.mem_map_of_mem hp), by
+        simp only [matFromA, effClaim, hg, Bool.false_eq_true, ↓reduceIte, Option.isSome_map]; exact h1, rfl⟩
+  rw [e] at hname
+  rcases foldl_dopt_named _ ⟨w0S, []⟩ w0S (fun n hn => Or.inl hn) _ hname with h1 | ⟨c, hc, hn⟩
+  · exact absurd h1 hw
+  · refine ⟨c, ?_, hn⟩
+    have : (planFields conv fl ps { wD := w0D, wS := w0S }).fromC = (planFields conv fl ps { wD := w0D, wS := w0S }).fromD.cs := rfl
+    rw [this, e]; exact hc
+
+/-- with at most one claimable partner per reading field, no reading field has two claims: every claim
+    is an emitted statement (`Target` is never overwritten) -/
+theorem claims_are_stmts_to {st : St} (h : Inv conv fns ps w0D w0S st) (hu : UniqueClaimable ps) (fs : List Field)
+    (hfs : ∀ p ∈ ps, p.1 ∈ fs) (c : Claim) : c ∈ fs.filterMap (lastClaim st.toC) ↔ c ∈ st.toC := by
+  apply stmts_eq_claims
+  · intro c1 h1 c2 h2 e
+    have p1 := h.toPair c1 h1
+    have p2 := h.toPair c2 h2
+    have hw : c1.wr = c2.wr := hu.1 _ p1.1 _ p2.1 e (h.toIn c1 h1).2.2 (h.toIn c2 h2).2.2
+    exact inj_of_map_nodup (fun x : Claim => x.wr.name) st.toC h.toNodup h1 h2 (by simp [hw])
+  · intro c1 h1
+    exact hfs _ (h.toPair c1 h1).1
+
+theorem claims_are_stmts_from {st : St} (h : Inv conv fns ps w0D w0S st) (hu : UniqueClaimable ps) (ds : List Field)
+    (hds : ∀ p ∈ ps, p.2 ∈ ds) (c : Claim) : c ∈ ds.filterMap (lastClaim st.fromC) ↔ c ∈ st.fromC := by
+  apply stmts_eq_claims
+  · intro c1 h1 c2 h2 e
+    have p1 := h.fromPair c1 h1
+    have p2 := h.fromPair c2 h2
+    have hw : c1.wr = c2.wr := hu.2 _ p1.1 _ p2.1 e (h.fromIn c1 h1).2.2 (h.fromIn c2 h2).2.2
+    exact inj_of_map_nodup (fun x : Claim => x.wr.name) st.fromC h.fromNodup h1 h2 (by simp [hw])
+  · intro c1 h1
+    exact hds _ (h.fromPair c1 h1).1
+
+
+/-! ## every claim carries the pair's own first applicable strategy -/
+
+theorem foldl_dopt_cs_mem (A : List Attempt) (d : Dir) (c : Claim) (h : c ∈ (A.foldl dopt d).cs) :
+    c ∈ d.cs ∨ ∃ a ∈ A, effClaim a = some c ∧ a.2.1.name ∉ d.w := by
+  induction A generalizing d with
+  | nil => exact Or.inl h
+  | cons a A ih =>
+    simp only [List.foldl_cons] at h
+    rcases ih _ h with h1 | ⟨b, hb, he, hn⟩
+    · rw [dopt_cs] at h1
+      rcases List.mem_append.mp h1 with h2 | h2
+      · exact Or.inl h2
+      · right
+        refine ⟨a, List.mem_cons_self, ?_⟩
+        split at h2
+        · cases h2
+        · rename_i hw
+          constructor
+          · cases he : effClaim a with
+            | none => simp [he] at h2
+            | some c' => simp [he] at h2; rw [h2]
+          · simpa using hw
+    · right
+      refine ⟨b, List.mem_cons_of_mem _ hb, he, ?_⟩
+      intro hmem
+      apply hn
+      obtain ⟨rd, wr, o⟩ := a
+      cases o with
+      | none => exact hmem
+      | some s =>
+        simp only [dopt]
+        by_cases hbk : blocked d wr = true
+        · rw [dclaim_pos hbk]; exact hmem
+        · rw [dclaim_neg hbk]; exact List.mem_cons_of_mem _ hmem
+
+theorem two_phase_strat (ps : List (Field × Field)) (rdOf wrOf : Field × Field → Field)
+    (o1 o2 : Field × Field → Option Strat) (w0 : List String) (c : Claim)
+    (h : c ∈ ((ps.map (fun p => ((rdOf p, wrOf p, o1 p) : Attempt)) ++ ps.map (fun p => ((rdOf p, wrOf p, o2 p) : Attempt))).foldl dopt
+          ⟨w0, []⟩).cs) :
+    ∃ p ∈ ps, (wrOf p).isGet = false ∧ (wrOf p).name ∉ w0 ∧
+      ∃ s, (o1 p).orElse (fun _ => o2 p) = some s ∧ c = ⟨rdOf p, wrOf p, s⟩ := by
+  rw [List.foldl_append] at h
+  rcases foldl_dopt_cs_mem _ _ c h with h1 | ⟨a, ha, he, hn⟩
+  · rcases foldl_dopt_cs_mem _ _ c h1 with h2 | ⟨a, ha, he, hn⟩
+    · cases h2
+    · obtain ⟨p, hp, rfl⟩ := List.mem_map.mp ha
+      obtain ⟨hg, s, hs, rfl⟩ := (effClaim_some _ _ _ _).mp he
+      exact ⟨p, hp, hg, hn, s, by simp [hs], rfl⟩
+  · obtain ⟨p, hp, rfl⟩ := List.mem_map.mp ha
+    obtain ⟨hg, s, hs, rfl⟩ := (effClaim_some _ _ _ _).mp he
+    rw [foldl_dopt_w] at hn
+    simp only [not_or, not_exists, not_and] at hn
+    have h1 : o1 p = none := by
+      cases h : o1 p with
+      | none => rfl
+      | some s' =>
+        exfalso
+        refine hn.2 (rdOf p, wrOf p, o1 p) (List.mem_map.mpr ⟨p, hp, rfl⟩) ?_ rfl
+        simp [effClaim, hg, h]
+    exact ⟨p, hp, hg, hn.1, s, by simp [h1, hs], rfl⟩
+
+/-- whatever pair made a claim, the claim carries `pairStrat` of that pair's types — also when several
+    reading fields compete for one written field -/
+theorem claim_strat (conv : List (Ty × Ty)) (fl : List Fn) (ps : List (Field × Field)) (hu : UniqueClaimable ps)
+    (w0D w0S : List String) :
+    (∀ c ∈ (planFields conv fl ps { wD := w0D, wS := w0S }).toC, (c.rd, c.wr) ∈ ps ∧
+      pairStrat conv (indexed fl) .src .dest c.rd.ty c.wr.ty = some c.strat) ∧
+    (∀ c ∈ (planFields conv fl ps { wD := w0D, wS := w0S }).fromC, (c.wr, c.rd) ∈ ps ∧
+      pairStrat conv (indexed fl) .dest .src c.rd.ty c.wr.ty = some c.strat) := by
+  have e := planFields_toD conv fl ps hu w0D w0S
+  constructor
+  · intro c hc
+    have : c ∈ (planFields conv fl ps { wD := w0D, wS := w0S }).toD.cs := hc
+    rw [e.1] at this
+    obtain ⟨p, hp, _, _, s, hs, rfl⟩ := two_phase_strat ps (·.1) (·.2) _ _ w0D c this
+    exact ⟨hp, hs⟩
+  · intro c hc
+    have : c ∈ (planFields conv fl ps { wD := w0D, wS := w0S }).fromD.cs := hc
+    rw [e.2] at this
+    obtain ⟨p, hp, _, _, s, hs, rfl⟩ := two_phase_strat ps (·.2) (·.1) _ _ w0S c this
+    exact ⟨hp, hs⟩
 
 end ShootVerif.Mapper
